@@ -22,6 +22,8 @@ from pddl_plus_parser.models import Domain
 from pddl_plus_parser.models import pddl_domain as pddl_domain_module
 from pddl_plus_parser.multi_agent import MultiAgentDomainsConverter, MultiAgentProblemsConverter
 
+from ops_core import number_table, vocab as core_vocab  # shared helpers of the semantic core (read-only use)
+
 WORK = Path(os.environ.get("VERIF_WORK", "/verif/work")) / "C17"
 
 
@@ -182,8 +184,14 @@ def combine(job):
             domain_path=f, partial_parsing=False, enable_disjunctions=True).parse_domain()))
     # ---- the call
     conv = MultiAgentDomainsConverter(cdir)
+    structured = {}
+
+    def locate():
+        d = conv.locate_domains(add_dummy_actions=job["dummy"])
+        structured["vocab"] = core_vocab(d)
+        return dump_domain(d)
     with forced_glob(job.get("dorder")):
-        res["dobs"] = attempt(lambda: dump_domain(conv.locate_domains(add_dummy_actions=job["dummy"])))
+        res["dobs"] = attempt(locate)
     res["default_after"] = default_state()
     # ---- export, re-parse
     exported = None
@@ -195,12 +203,27 @@ def combine(job):
         if "ok" in r:
             exported = r["ok"]
             res["dexport"] = {"ok": exported.name}
-            res["drt"] = attempt(lambda: dump_domain(DomainParser(
-                domain_path=exported, partial_parsing=False, enable_disjunctions=True).parse_domain()))
+            def reparse():
+                d = DomainParser(domain_path=exported, partial_parsing=False, enable_disjunctions=True).parse_domain()
+                structured["rt_vocab"] = core_vocab(d)
+                return dump_domain(d)
+            res["drt"] = attempt(reparse)
             if "ok" in res["drt"]:
                 res["drt_same"] = canon_domain(res["drt"]["ok"]) == canon_domain(res["dobs"]["ok"])
         else:
             res["dexport"] = r
+    if job.get("structured"):
+        # what the structured correspondence (Corr/C17s.v) needs: the texts, float() of their numerals and of the
+        # exported text's, the printing precisions, the two vocabularies
+        import pddl_plus_parser.models.numerical_expression as ne
+        import pddl_plus_parser.models.pddl_precondition as pp
+        nums = {}
+        for n in dorder:
+            nums.update(number_table(job["dfiles"][n]))
+        if exported is not None:
+            nums.update(number_table(exported.read_text()))
+        structured.update({"nums": nums, "dpre": pp.DEFAULT_DECIMAL_DIGITS, "deff": ne.DEFAULT_DIGITS})
+        res["structured"] = structured
     # ---- problems
     dpath = None
     if job.get("domain_path"):
